@@ -79,7 +79,7 @@ def run(tier, seed, replay):
         # 3. consumers
         cases = []
         pool = uni[:70]
-        for _ in range(350 if quick else 6000):
+        for _ in range(350 if quick else 15000):
             n = r.choice([0, 1, 2, 3, 5, 8, 13, 16, 20, 24])
             few = r.sample(pool, r.choice([2, 3, 5, 8]))          # many ties
             xs = [r.choice(few) for _ in range(n)]
@@ -102,7 +102,7 @@ def run(tier, seed, replay):
                 ("group_by(-.)", "to_entries | group_by(-.value) | map(map(.key))", "groups"), ("[.[] | select(. == 1)]", "to_entries | map(select(.value == 1) | .key)", "list"), ("(sort | first), (sort | last)", "to_entries | sort_by(.value) | (first, last) | .key", "ones"),
                 ("[limit(3; sort[])]", "to_entries | sort_by(.value) | map(.key) | .[:3]", "list"), ("reverse | max", "to_entries | reverse | max_by(.value) | .key", "one"), ("reverse | min", "to_entries | reverse | min_by(.value) | .key", "one")]
         tcases, scases = [], []
-        for _ in range(120 if quick else 3000):
+        for _ in range(120 if quick else 10000):
             vals = [r.choice(list(SPELL)) for _ in range(r.choice([2, 3, 4, 5, 6, 8]))]
             used, lits = set(), []
             for v in vals:
